@@ -538,6 +538,7 @@ def run(rep, prog, tier):
         generic.rule_def(rep, m, fn, exceptions={('optimize_cons', 'bnds'): 'guard (lower_bound is not None) and (upper_bound is not None) '
                                                  'is a tautology: both were rebound to arrays by _project_params_down just above'})
         generic.rule_sig(rep, prog, m, fn)
+        generic.rule_extsig(rep, m, fn)          # keywords exist in the installed scipy (read from /venv, not imported)
         check_entry(rep, prog, m, fn, [{}])
         check_args_tuple(rep, prog, m, fn)
     optf = prog.func('dadi.NLopt_mod', 'opt')
